@@ -7,7 +7,9 @@ import json, os, shutil, subprocess, tempfile, time
 from . import common as C
 from . import asa, ios
 
-PASSWORD = "p@ss_w/o&=%1Z~q*"        # characters that need URL escaping and ones (`~`) that are legal unescaped
+# characters that need URL escaping, ones (`~`) that are legal unescaped, and regexp operators in the MIDDLE of the word
+# (`Z*q`, `q+r`, `r?s`: a pattern built from the unquoted password does not match the password at all)
+PASSWORD = "p@ss_w/o&=%1Z*q+r?s~t"
 TEST_TIME = "2024-Sep-29 16:19:50"
 
 T = lambda k, v: {"k": k, "v": v}
@@ -158,7 +160,7 @@ def read_transcript(path):
 
 
 def run_session(bins, home, typ, fe, verb, sim, name="router", tag="s", wait=True, extra_env=None,
-                code_arg=None, verb_arg=None):
+                code_arg=None, verb_arg=None, nolog=False):
     """Run one real session.  sim: scenario dict for consim (console types).  Returns a result dict
     (or the Popen object when wait=False)."""
     log = os.path.join(home, "transcript-%s.ndjson" % tag)
@@ -187,7 +189,8 @@ def run_session(bins, home, typ, fe, verb, sim, name="router", tag="s", wait=Tru
         env.update(extra_env)
     if fe == "drc":
         cmd = [os.path.join(bins, "drc")] + (["-C"] if verb == "compare" else []) + \
-              ["-L", os.path.join(home, "logs"), code_arg or os.path.join(home, "policies", "p1", "code", name)]
+              ([] if nolog else ["-L", os.path.join(home, "logs")]) + \
+              [code_arg or os.path.join(home, "policies", "p1", "code", name)]     # nolog: `drc` without a log directory
     else:
         cmd = [os.path.join(bins, "do-approve"), verb_arg or verb, name]
     p = subprocess.Popen(cmd, cwd=home, env=env, stdin=subprocess.DEVNULL, stdout=subprocess.PIPE,
